@@ -156,17 +156,19 @@ def cpp_rfn(f):
     if f[0] == "horner": return "k2s::redobj{'h',0,0}"
     return "k2s::redobj{'i',%d,%d}" % (f[1], f[2])
 
+MV = [False]     # emitting for the K2S_ELEM_MV build (move-sensitive elements)
 def to_cpp(s):
     k = s[0]
-    if k == "range": return "unifex::range_stream{%d, %d}" % (s[1], s[2])
-    if k == "single": return "unifex::single(unifex::just(%d))" % s[1]
+    if k == "range":
+        return ("unifex::transform_stream(unifex::range_stream{%d, %d}, k2s::to_elem{})" if MV[0] else "unifex::range_stream{%d, %d}") % (s[1], s[2])
+    if k == "single": return "unifex::single(unifex::just(k2s::elem_t(%d)))" % s[1]
     if k == "src": return "k2s::src{%d, %s}" % (s[1], "true" if s[2] else "false")
     if k == "never": return "unifex::never_stream{}"
     if k == "tr": return "unifex::transform_stream(%s, %s)" % (to_cpp(s[2]), cpp_fn(s[1]))
     if k == "fi": return "unifex::filter_stream(%s, %s)" % (to_cpp(s[2]), cpp_pred(s[1]))
     if k == "tu": return "unifex::take_until(%s, k2s::src{%d, %s})" % (to_cpp(s[1]), s[2], "true" if s[3] else "false")
-    if k == "si": return "unifex::stop_immediately<int>(%s)" % to_cpp(s[1])
-    if k == "te": return "unifex::type_erase<int>(%s)" % to_cpp(s[1])
+    if k == "si": return "unifex::stop_immediately<k2s::elem_t>(%s)" % to_cpp(s[1])
+    if k == "te": return "unifex::type_erase<k2s::elem_t>(%s)" % to_cpp(s[1])
     raise ValueError(k)
 
 def case_cpp(case):
@@ -224,8 +226,9 @@ def gen_scripts(rng, case, n):
 
 
 # ------------------------------------------------------------------------------------------ TU emission
-def emit_tu(cases):
-    src = ['#include "k2s.hpp"', ""]
+def emit_tu(cases, mv=False):
+    MV[0] = mv
+    src = (["#define K2S_ELEM_MV 1"] if mv else []) + ['#include "k2s.hpp"', ""]
     for i, case in enumerate(cases):
         src.append("// %s" % case_model(case))
         src.append("static std::string case_%d(int pre, const std::vector<k2s::script_ev>& s) {" % i)
@@ -316,6 +319,15 @@ CORPUS = [
     (("reduce", 1, ("sum",)), ("fi", ("even",), ("tr", ("mul", 3), ("range", 0, 7)))),
     (("reduce", 0, ("sum",)), ("tu", ("si", ("src", 0, 0)), 1, 1)),
 ]
+# move-sensitive elements: every value-carrying adaptor followed by a by-value consumer
+MV_CORPUS = [
+    (("reduce", 0, ("horner",)), ("fi", ("ne", 4), ("src", 0, 0))),
+    (("reduce", 0, ("sum",)), ("fi", ("even",), ("tr", ("add", 1), ("range", 0, 9)))),
+    (("foreach", ("add", 1)), ("fi", ("lt", 5), ("tr", ("mul", 2), ("src", 0, 1)))),
+    (("reduce", 0, ("horner",)), ("tr", ("add", 2), ("fi", ("ne", 3), ("te", ("src", 0, 0))))),
+    (("reduce", 0, ("horner",)), ("fi", ("lt", 9), ("si", ("tu", ("src", 0, 1), 1, 1)))),
+    (("reduce", 0, ("sum",)), ("te", ("tr", ("add", 1), ("single", 6)))),
+]
 CORPUS_SCRIPTS = {
     0: [(0, "N0:v1 N0:v2 N1:v0 C0:d C1:d"), (0, "N0:v1 N0:d C1:d C0:d N1:d C1:d"), (0, "N0:v3 S C0:d C1:d")],
     1: [(0, "N0:v1 N1:d N0:d C0:d C1:d"), (0, "N0:v1 N1:d N0:d C1:d C0:d")],
@@ -327,8 +339,8 @@ CORPUS_SCRIPTS = {
 }
 
 
-def run_k2s(chk, n_tus, cases_per_tu, scripts_per_case, depth_range=(0, 4), cfg="plain17", tag="k2s", corpus=None):
-    rng = random.Random(chk.seed * 104729 + 13)
+def run_k2s(chk, n_tus, cases_per_tu, scripts_per_case, depth_range=(0, 4), cfg="plain17", tag="k2s", corpus=None, mv=False):
+    rng = random.Random(chk.seed * 104729 + 13 + (7919 if mv else 0))
     tus = []
     for t in range(n_tus):
         cases = []
@@ -350,7 +362,7 @@ def run_k2s(chk, n_tus, cases_per_tu, scripts_per_case, depth_range=(0, 4), cfg=
     hdr = open(os.path.join(hdr_dir or vlib.HARNESS, "k2s.hpp"), "rb").read()
     jobs = []
     for cases in tus:
-        src = emit_tu(cases)
+        src = emit_tu(cases, mv)
         h = hashlib.sha256(src.encode() + hdr).hexdigest()[:12]
         p = os.path.join(gen_dir, "%s_%s.cpp" % (tag, h))
         if not os.path.exists(p):
@@ -374,7 +386,7 @@ def run_k2s(chk, n_tus, cases_per_tu, scripts_per_case, depth_range=(0, 4), cfg=
             for k in kinds(case[1]) + [case[0][0]]:
                 stats["kinds"][k] = stats["kinds"].get(k, 0) + 1
             scripts = gen_scripts(rng, case, scripts_per_case)
-            if tn < ncorpus_tus:
+            if tn < ncorpus_tus and not mv:
                 scripts = CORPUS_SCRIPTS.get(tn * cases_per_tu + i, []) + scripts
             for pre, sc in scripts:
                 ilines.append("%d %d | %s" % (i, pre, sc))
@@ -463,5 +475,8 @@ def model_run(lines):
 def standard_k2s(chk):
     """quick: few translation units (cached by content hash of TU + harness + /repo tree)"""
     quick = chk.tier == "quick"
-    return run_k2s(chk, n_tus=5 if quick else 28, cases_per_tu=6, scripts_per_case=14 if quick else 40,
-                   depth_range=(0, 4) if quick else (0, 5))
+    run_k2s(chk, n_tus=5 if quick else 28, cases_per_tu=6, scripts_per_case=14 if quick else 40,
+            depth_range=(0, 4) if quick else (0, 5))
+    # the same with move-sensitive elements and by-value callables (K2S_ELEM_MV)
+    return run_k2s(chk, n_tus=2 if quick else 10, cases_per_tu=6, scripts_per_case=14 if quick else 40,
+                   depth_range=(1, 4) if quick else (1, 5), tag="k2smv", corpus=MV_CORPUS, mv=True)
